@@ -1034,20 +1034,49 @@ def check_C08(tier, seed, replay=None):
     from rt import pairwise
     d2, npairs = pairwise(run, [(i, i + 1) for i in range(0, len(run.variants), 2)], fields=("status", "ok", "end", "val", "errs", "store"))
     div += d2
-    # texts of a few thousand operands (a memo table of thousands of rows: one per offset at which a leader was tried) in between
+    # texts of more than a thousand operands (a memo table of more than a thousand rows) in between
     # short ones, in one process: the same calls in the opposite order (a fresh process) return the same, and so do Memoize and
     # -optimize-parser -- whatever a long parse leaves behind (tables, pools, buffers) must not reach the next one.  Real against
     # real: the reference evaluation in TLC is quadratic in the length of the text.
     run_l = Run("C08", tier, seed)
-    lg = F.lr_groups(seed + 5, 8 if tier == "quick" else 40, gi0=1, pure=True)
+    from peg import Gram
+
+    def tower(gi, kind):
+        g = Gram(gi)
+        g.tags.add("lr")
+        n_ = lambda: g.lit([F.NN])
+        act_ = lambda e_: e_          # no action on the recursive alternatives: the value of a long text stays linear in its length
+        op = lambda c_: g.lit([c_])
+        if kind == 0:       # E <- l:E '+' r:T {..} / l:E '-' r:T {..} / T ; T <- l:T '*' r:F {..} / F ; F <- 'n' {..}
+            g.rules = [g.choice([act_(g.seq([g.label(g.ref(1)), op(F.PLUS), g.label(g.ref(2))])), act_(g.seq([g.label(g.ref(1)), op(F.MINUS), g.label(g.ref(2))])), g.ref(2)]),
+                       g.choice([act_(g.seq([g.label(g.ref(2)), op(F.STAR_), g.label(g.ref(3))])), g.ref(3)]), g.action(n_())]
+            g.lr = [2, 1, 0]
+        elif kind == 1:     # through one other rule: E <- P / M / T ; P <- l:E '+' r:T {..} ; M <- l:E '-' r:T {..} ; T <- l:T '*' 'n' {..} / 'n'
+            g.rules = [g.choice([g.ref(2), g.ref(3), g.ref(4)]), act_(g.seq([g.label(g.ref(1)), op(F.PLUS), g.label(g.ref(4))])),
+                       act_(g.seq([g.label(g.ref(1)), op(F.MINUS), g.label(g.ref(4))])), g.choice([act_(g.seq([g.label(g.ref(4)), op(F.STAR_), n_()])), n_()])]
+            g.lr = [2, 0, 0, 1]
+        elif kind == 2:     # one level, every operator: E <- l:E [-+*] 'n' {..} / 'n'
+            g.rules = [g.choice([act_(g.seq([g.label(g.ref(1)), g.cls((F.PLUS, F.MINUS, F.STAR_), (), False, False), n_()])), n_()])]
+            g.lr = [1]
+        else:               # growth steps that fail after consuming: E <- l:E [-+] r:F !'x' {..} / F ; F <- l:F '*' 'n'+ / 'n'+ {..}
+            g.rules = [g.choice([act_(g.seq([g.label(g.ref(1)), g.cls((F.PLUS, F.MINUS), (), False, False), g.label(g.ref(2)), g.un("not", g.lit([120]))])), g.ref(2)]),
+                       g.choice([g.seq([g.label(g.ref(2)), op(F.STAR_), g.un("plus", n_())]), g.action(g.un("plus", n_()))])]
+            g.lr = [1, 1]
+        g.disp = [""] * len(g.rules)
+        g.compute_args()
+        g.maydiverge = False
+        return g
+    lg = [tower(i + 1, i % 4) for i in range(4 if tier == "quick" else 8)]
     rl = random.Random(seed + 6)
     def long_text(nops):
         t = [F.NN]
         for _ in range(nops):
             t += [rl.choice([F.PLUS, F.PLUS, F.MINUS, F.STAR_]), F.NN]
         return t
-    linputs = [long_text(1300), long_text(2), long_text(700), [F.NN], long_text(1), long_text(2600) if tier != "quick" else long_text(1100), long_text(5), [F.NN, F.PLUS]]
-    lopts = [opt(), opt(memo=True)]
+    linputs = [long_text(1300), long_text(2), long_text(80), [F.NN], long_text(1), long_text(2600) if tier != "quick" else long_text(1150), long_text(5), [F.NN, F.PLUS]]
+    # "sandwich": the runner parses the second half of each text (other content at the same offsets) before the call and again immediately after it (collector held
+    # back): the two probes must agree, whatever the call in between put into a pool
+    lopts = [opt(sandwich=True), opt(memo=True, sandwich=True)]
     lpig = P.build_pigeon()
     fwd = [[gx, ii, oi] for gx in range(len(lg)) for ii in range(len(linputs)) for oi in (0, 1)]
     bwd = list(reversed(fwd))
@@ -1063,8 +1092,14 @@ def check_C08(tier, seed, replay=None):
             raise P.Inconclusive("pigeon rejected the long-text pack: " + v.gen_err)
         if not v.build():
             raise P.Inconclusive("build failed: " + v.build_err)
-        return v.run(linputs, lopts, pl_, timeout_ms=60000)
+        return v.run(linputs, lopts, pl_, timeout_ms=60000, mem_mb=8000)
     run_l.obs = P.parallel(lprep, list(zip(lvars, lplans)))
+    from rt import load_obs as _lo
+    for vx_ in range(len(lvars)):
+        for key_, o_ in _lo(run_l.obs[vx_]).items():
+            if o_.get("stale") or o_["status"] != "ok":
+                run.violation(run_l.replay_path(dict(k=o_["k"], vi=lvars[vx_].vi, gi=key_[0], ii=key_[1], oi=key_[2], df="call-left-something-behind" if o_.get("stale") else o_["status"], at=0)),
+                              "long text (group %d, %d bytes): %s" % (key_[0], len(linputs[key_[1] - 1]), "the same short parse returns something else right after this call than before it" if o_.get("stale") else o_["status"]))
     run_l.variants, run_l.groups, run_l.inputs, run_l.options = lvars, lg, linputs, lopts
     dl, nl = pairwise(run_l, [(0, 1), (2, 3), (0, 2)], fields=("status", "ok", "end", "val", "errs"))
     dm, nm = pairwise(run_l, [(0, 0), (2, 2)], fields=("status", "ok", "end", "val", "errs"), optmap={1: 2})
